@@ -196,6 +196,21 @@ class VerifExitingOperation(FloatOperation):
         return FloatDataType(data.data)
 
 
+class VerifClockStepBackOperation(FloatOperation):
+    """Passes its input through; while it runs the host's wall clock is set back by five seconds (what an NTP step does).
+    The caller restores `time.time` (kept in `real_time`)."""
+
+    real_time = None
+
+    def _process_logic(self, data):
+        import time as _t
+        if VerifClockStepBackOperation.real_time is None:
+            VerifClockStepBackOperation.real_time = _t.time
+        real = VerifClockStepBackOperation.real_time
+        _t.time = lambda: real() - 5.0
+        return FloatDataType(data.data)
+
+
 class VerifScaleAndNoteOperation(FloatOperation):
     """data * factor; also stores the factor it used under the declared context key `last_factor`."""
 
